@@ -108,6 +108,8 @@ def seeded_cases(prop):
             diff = open(os.path.join(d, 'patch.diff')).read()
         except OSError:
             continue
+        if meta.get('kind') == 'refactoring-unsupported':
+            continue                      # a documented limitation (DESIGN 11): filed for the record, not replayed
         if meta.get('kind') == 'refactoring':
             # a confirmed behaviour-preserving refactoring: the check must stay silent
             out.append({'name': 'refactoring:' + os.path.basename(d), 'kind': 'twin',
